@@ -73,7 +73,7 @@ private:
             Vertex spanner_u = _vertex_g_to_spanner[u];
 
             // compute shortest path on spanner
-            std::vector<WeightType> dist(boost::num_vertices(_spanner),
+            static std::vector<WeightType> dist(boost::num_vertices(_spanner),   // R06d positive: initialised once, labels of earlier edges remain
                     (std::numeric_limits<WeightType>::max)());
             boost::function_property_map<
                     parmcb::detail::VertexIndexFunctor<Graph, WeightType>,
